@@ -182,6 +182,8 @@ def run_check(prop, tier, seed, jobs=None):
     if hasattr(mod, 'setup'):
         mod.setup(tier, seed)
     items = list(mod.items(tier, seed))
+    if hasattr(mod, 'cost'):
+        items.sort(key=lambda it: -mod.cost(it))   # long items first: better packing of the pool
     jobs = jobs or int(os.environ.get('MC_JOBS') or min(16, os.cpu_count() or 1))
     env.freeze()
     results = []
@@ -218,6 +220,8 @@ def run_check(prop, tier, seed, jobs=None):
             else:
                 g['count'] += v['count']
 
+    slow = sorted(results, key=lambda r: -r['wall'])[:5]
+    slowest = [{'item': enc(items[r['idx']]), 'wall_s': round(r['wall'], 2)} for r in slow]
     known = load_known()
     reported, known_hits, unconfirmed = [], collections.OrderedDict(), []
     for gname, v in groups.items():
@@ -269,6 +273,8 @@ def run_check(prop, tier, seed, jobs=None):
         'unconfirmed_groups': len(unconfirmed),
         'engine': getattr(mod, 'ENGINE', ''),
         'notes': notes[:20],
+        'slowest_items': slowest,
+        'cpu_s_total': round(sum(r['wall'] for r in results), 1),
     }
     if hasattr(mod, 'vacuity'):
         problems = mod.vacuity(cov, tier)
